@@ -189,6 +189,13 @@ class StmtMixin(object):
         if spec is not None and self.check_schema_stores:
             self.oblige(st, 'schema.store.%s@%d' % (name, line), spec.assumption(hv.t),
                         'value stored into .%s must respect the declared field type %r' % (name, spec))
+        from .model import CLASS_INVARIANTS
+        for c, items in CLASS_INVARIANTS.items():
+            for f, val in items:
+                if f == name and self.check_schema_stores:
+                    self.oblige(st, 'invariant.store.%s@%d' % (name, line),
+                                z3.Implies(isinstance_term(base.t, (c,)), hv.t == self.lift(val).t),
+                                'class invariant of %s: .%s == %r' % (c.__name__, f, val))
         self.store(st, Val.r(base.t), name, hv.t)
         self.stored_fields.add(name)
 
